@@ -219,7 +219,7 @@ RESULTS = {
  "C04-6A": ("C04", "C04/req-body", "quick", False, "upstream block whose backend drops the first attempt on a reused kept-alive connection; requests a client library may replay on its own (idempotent methods, idempotency keys) with chunked bodies"),
  "C04-6B": ("C04", "C04/resp-hop-by-hop-forwarded/connection-named", "quick", True, ""),
  "C05-6A": ("C05", "C05/e2e-not-answered-by-healthy/*", "quick", True, ""),
- "C05-6B": ("C14", "C14/client-cancel-counted-as-failure (C14, at arrival); not caught by C05", "quick", True, ""),
+ "C05-6B": ("C05, C14", "C05/e2e-not-answered-by-healthy/* (C05 after strengthening); C14/client-cancel-counted-as-failure (C14, at arrival)", "quick", False, "C05: a client that hangs up while the only healthy backend is working on its request, then further requests (the other backend refuses connections), five policies"),
  "C06-6A": ("C06", "C06/clientauth-site-served-under-other-sni/*", "quick", True, ""),
  "C06-6B": ("C06", "C06/cipher-not-in-site-list", "quick", False, "a third of the sites write their tls settings over two tls lines"),
  "C07-6A": ("C07", "C07/history-not-linearizable", "quick", False, "the first three reloads of plain histories have to wait for a 2.6 s health probe of the old instance"),
